@@ -50,7 +50,8 @@ def reproduce_finding(f, ctx):
 
 
 def oracle(ctx):
-    return lc.oracle("C10", ctx)
+    h = PROP["harnesses"][0]
+    return lc.oracle("C10", ctx, h["modes_thorough"] if ctx.get("tier") == "thorough" else h["modes"])
 
 
 def replay(payload, ctx):
